@@ -139,6 +139,16 @@ def limits_count_new_item(prog, rep):
     ir = IR(b)
     calls = [(bi, t) for bi, t in b.calls() if (t.get("callee") or "") == S_ + "RawSnap::serialized_ints_size"]
     rep.floor(rule, len(calls), 1, "serialized_ints_size(..) in prepare_item_vacant")
+    # both limits are inclusive: a snapshot with exactly MAX_SNAPSHOT_ITEMS items / exactly MAX_SNAPSHOT_SIZE bytes is accepted
+    from .common import exact_clauses, _txt
+    mi = prog.constv("libtw2_snapshot::format::MAX_SNAPSHOT_ITEMS") if "libtw2_snapshot::format::MAX_SNAPSHOT_ITEMS" in prog.consts else None
+    table = [
+        ("the item count after insertion exceeds MAX_SNAPSHOT_ITEMS", lambda a: a[0] == "bin" and a[1] == "Add" and "num_items" in _txt(a),
+         lambda y: y[0] == "c" and (len(y) > 3 and "MAX_SNAPSHOT_ITEMS" in (y[3] or "")), "Gt", 1),
+        ("the serialized size after insertion exceeds MAX_SNAPSHOT_SIZE", lambda a: "serialized_ints_size" in _txt(a),
+         lambda y: y[0] == "c" and (len(y) > 3 and "MAX_SNAPSHOT_SIZE" in (y[3] or "")), "Gt", 1),
+    ]
+    exact_clauses(rep, rule, "prepare_item_vacant", b, ir, table, floor=2)
     end = None
     for bi in sorted(b.live):
         for si, st in enumerate(b.blocks[bi]["st"]):
